@@ -75,4 +75,4 @@ def run(tier, seed):
         "directions and return bit-identical Index / Value / LowerBound / accuracy / range on 9 probe values and 4 probe indexes; Equals is reflexive, symmetric on pairs 1..10^6 ulps apart, "
         "false across kinds and for accuracies >= 0.1% apart; undefined mapping flags are refused. distinct_nontrivial = distinct mappings",
         trusted_extra=["gamma computed through math.Pow is covered by the comparison with the implementation's own fields, not proved"],
-        ignore_model=("ksum", "kacc", "layout"))
+        ignore_model=("kacc", "layout"))
